@@ -143,6 +143,15 @@ fn ssd_(f: &[&str], cat: bool) -> String {
 
 /// `sbx <hex1> <hex2> <k>`: StrippedBytes::new(h1), take k pieces, into_vec of a clone, drain, is_empty, extend(h2), drain
 pub fn sbx(f: &[&str]) -> String {
+    sbx_(f, false)
+}
+
+/// `sbxcat`: everything the iterator yielded over both slices, concatenated
+pub fn sbxcat(f: &[&str]) -> String {
+    sbx_(f, true)
+}
+
+fn sbx_(f: &[&str], cat: bool) -> String {
     let d1 = unhex(f[0]);
     let d2 = unhex(f[1]);
     let k: usize = f[2].parse().unwrap();
@@ -162,6 +171,9 @@ pub fn sbx(f: &[&str]) -> String {
     let empty = it.is_empty();
     it.extend(&d2);
     let rest2: Vec<u8> = it.flat_map(|p| p.to_vec()).collect();
+    if cat {
+        return crate::hexo(&[&first[..], &rest1[..], &rest2[..]].concat());
+    }
     format!("{} {} {} {} {}", crate::hexo(&first), crate::hexo(&cloned), crate::hexo(&rest1), empty as u8, crate::hexo(&rest2))
 }
 
@@ -178,6 +190,7 @@ pub fn dispatch(kind: &str, f: &[&str]) -> Option<String> {
         "ssd" => ssd(f),
         "ssdcat" => ssdcat(f),
         "sbx" => sbx(f),
+        "sbxcat" => sbxcat(f),
         _ => return None,
     })
 }
